@@ -1,6 +1,396 @@
-pub fn gen(_seed: u64, _thorough: bool) -> Vec<String> {
-    vec![]
+//! C18: permissive parsing repairs known writer bugs and never harms a consistent file.
+//!
+//! Case kinds:
+//!   `D <hdr> <fl> <defect>...`  the true header (canonical token of c09.rs), its raw form with the
+//!                               defects injected, written and re-read.
+//!                               fl: e (true file length) | n (none) | + | - (true length +-1) | <u64>
+//!                               defect: A:a | M:m | DM | H24 | PS:n | PF:f | A2:v
+//!   `R <fl> <w0> <w1> ...`      an arbitrary word image (magic included), fl: n | <u64>
+//!
+//! Result: `s=<strict> p=<permissive> f=<permissive with file_len> lf=<layout length of f> L=<true length>`.
+use crate::c09::*;
+use crate::common::*;
+use dds::header::*;
+use dds::*;
+
+#[derive(Clone, Debug, PartialEq)]
+pub enum Defect {
+    Array(u32),
+    Mips(u32),
+    DropMipFlags,
+    Header24,
+    PfSize(u32),
+    PfFlags(u32),
+    Misc2(u32),
 }
-pub fn run(_line: &str) -> Option<(String, Vec<String>)> {
-    None
+
+pub fn parse_defect(s: &str) -> Option<Defect> {
+    let p: Vec<&str> = s.split(':').collect();
+    let n = |i: usize| -> Option<u32> { p.get(i)?.parse().ok() };
+    Some(match p[0] {
+        "A" => Defect::Array(n(1)?),
+        "M" => Defect::Mips(n(1)?),
+        "DM" => Defect::DropMipFlags,
+        "H24" => Defect::Header24,
+        "PS" => Defect::PfSize(n(1)?),
+        "PF" => Defect::PfFlags(n(1)?),
+        "A2" => Defect::Misc2(n(1)?),
+        _ => return None,
+    })
+}
+pub fn fmt_defect(d: &Defect) -> String {
+    match d {
+        Defect::Array(a) => format!("A:{a}"),
+        Defect::Mips(m) => format!("M:{m}"),
+        Defect::DropMipFlags => "DM".into(),
+        Defect::Header24 => "H24".into(),
+        Defect::PfSize(n) => format!("PS:{n}"),
+        Defect::PfFlags(f) => format!("PF:{f}"),
+        Defect::Misc2(v) => format!("A2:{v}"),
+    }
+}
+
+pub fn apply_defect(d: &Defect, raw: &mut RawHeader) {
+    match d {
+        Defect::Array(a) => {
+            if let Some(e) = raw.dx10.as_mut() {
+                e.array_size = *a;
+            }
+        }
+        Defect::Mips(m) => raw.mipmap_count = *m,
+        Defect::DropMipFlags => {
+            raw.flags = DdsFlags::from_bits_retain(raw.flags.bits() & !0x20000);
+            raw.caps = Caps::from_bits_retain(raw.caps.bits() & !0x400008);
+        }
+        Defect::Header24 => raw.size = 24,
+        Defect::PfSize(n) => raw.pixel_format.size = *n,
+        Defect::PfFlags(f) => raw.pixel_format.flags = PixelFormatFlags::from_bits_retain(*f),
+        Defect::Misc2(v) => {
+            if let Some(e) = raw.dx10.as_mut() {
+                e.misc_flags2 = *v;
+            }
+        }
+    }
+}
+
+fn full_chain(h: &Header) -> u32 {
+    let m = h.width().max(h.height()).max(h.depth().unwrap_or(1));
+    (32 - m.leading_zeros()).max(1)
+}
+
+/// The property's reading of "known defect of the true header h" (independent of the model):
+/// the mip defects are those after which the true count is 1, the full chain, or one off the
+/// count the reader sees.
+pub fn applies(d: &Defect, h: &Header) -> bool {
+    let mip_ok = |seen: u32| -> bool {
+        let t = h.mipmap_count().get();
+        t == 1 || t == full_chain(h) || Some(t) == seen.checked_sub(1) || t == seen.saturating_add(1)
+    };
+    match (d, h) {
+        (Defect::Array(a), Header::Dx10(x)) => {
+            x.array_size == 1
+                && (*a == 0
+                    || (*a == 6 && x.resource_dimension == ResourceDimension::Texture2D && x.misc_flag.contains(MiscFlags::TEXTURE_CUBE))
+                    || x.resource_dimension == ResourceDimension::Texture3D)
+        }
+        (Defect::Mips(m), _) => mip_ok((*m).max(1)),
+        (Defect::DropMipFlags, _) => mip_ok(1),
+        (Defect::Header24, _) => true,
+        (Defect::PfSize(n), _) => *n == 0 || *n == 24,
+        (Defect::PfFlags(f), Header::Dx9(x)) => f & 4 == 0 && matches!(x.pixel_format, Dx9PixelFormat::FourCC(c) if c != FourCC::NONE),
+        (Defect::Misc2(v), Header::Dx10(_)) => v % 8 >= 5,
+        _ => false,
+    }
+}
+
+fn fmt_r(r: &Result<Header, HeaderError>) -> String {
+    match r {
+        Ok(h) => fmt_header(h),
+        Err(e) => fmt_err(e),
+    }
+}
+
+/// the three parses of one byte image and the clauses of C18 that speak about any image
+fn three(bytes: &[u8], fl: Option<u64>, oracle: &mut Vec<String>) -> (String, Option<Header>) {
+    let s = read_header(bytes, &ParseOptions::default()).0;
+    let p = read_header(bytes, &ParseOptions::new_permissive(None)).0;
+    let f = read_header(bytes, &ParseOptions::new_permissive(fl)).0;
+    // clause 2 (second half): without a file length permissive changes nothing strict accepts
+    if let Ok(hs) = &s {
+        match &p {
+            Ok(hp) if hp == hs => {}
+            _ => oracle.push(format!("strict accepts {} but permissive (no file_len) gives {}", fmt_header(hs), fmt_r(&p))),
+        }
+        // clause 1: a header consistent with the file length is untouched
+        if let (Some(fl), Some(l)) = (fl, data_len(hs)) {
+            if l.checked_add(4 + hs.byte_len() as u64) == Some(fl) {
+                match &f {
+                    Ok(hf) if hf == hs => {}
+                    _ => oracle.push(format!(
+                        "consistent header {} (data length {l}) is changed by permissive parsing with file_len {fl}: {}",
+                        fmt_header(hs),
+                        fmt_r(&f)
+                    )),
+                }
+            }
+        }
+    }
+    // clause 4: a repair that changes mip count / array size matches the file length exactly
+    match (&p, &f) {
+        (Ok(h0), Ok(h1)) => {
+            let mips_changed = h0.mipmap_count() != h1.mipmap_count();
+            let arr_changed = h0.array_size() != h1.array_size() && !(h0.array_size() == 0 && h1.array_size() == 1);
+            if mips_changed || arr_changed {
+                let want = fl.and_then(|x| x.checked_sub(4 + h1.byte_len() as u64));
+                if want.is_none() || data_len(h1) != want {
+                    oracle.push(format!(
+                        "repair {} -> {} does not match the file length: layout {:?}, file data {:?}",
+                        fmt_header(h0),
+                        fmt_header(h1),
+                        data_len(h1),
+                        want
+                    ));
+                }
+            }
+        }
+        _ => {}
+    }
+    let lf = f.as_ref().ok().and_then(data_len);
+    let out = format!(
+        "s={} p={} f={} lf={}",
+        fmt_r(&s),
+        fmt_r(&p),
+        fmt_r(&f),
+        lf.map(|x| x.to_string()).unwrap_or("-".into())
+    );
+    (out, f.ok())
+}
+
+fn run_d(t: &[&str]) -> Option<(String, Vec<String>)> {
+    let h = parse_header(t.get(1)?)?;
+    let flm = *t.get(2)?;
+    let mut ds = vec![];
+    for s in &t[3..] {
+        ds.push(parse_defect(s)?);
+    }
+    let mut raw = h.to_raw();
+    for d in &ds {
+        apply_defect(d, &mut raw);
+    }
+    let mut bytes = Header::MAGIC.to_vec();
+    raw.write(&mut bytes).unwrap();
+    let l = data_len(&h);
+    let tl = l.and_then(|l| l.checked_add(4 + h.byte_len() as u64));
+    let fl = match flm {
+        "n" => None,
+        "e" => tl,
+        "+" => tl.and_then(|x| x.checked_add(1)),
+        "-" => tl.and_then(|x| x.checked_sub(1)),
+        x => Some(p_u64(x)?),
+    };
+    let mut oracle = vec![];
+    let (out, f) = three(&bytes, fl, &mut oracle);
+    // clause 3: a known defect of a valid header is recovered
+    let single = ds.len() == 1 && applies(&ds[0], &h);
+    let combo = ds.len() == 2
+        && ds.contains(&Defect::Array(0))
+        && matches!(&h, Header::Dx10(x) if x.array_size == 1)
+        && ds.iter().any(|d| matches!(d, Defect::Mips(_) | Defect::DropMipFlags) && applies(d, &h));
+    if flm == "e" && (single || combo || ds.is_empty()) {
+        if let (Some(l), Some(_)) = (l, tl) {
+            if l > 0 && h.array_size() != 0 {
+                let got = f.as_ref().and_then(data_len);
+                if got != Some(l) {
+                    oracle.push(format!(
+                        "defect {:?} of {} is not recovered: result {} has layout length {:?}, the file has {l}",
+                        ds.iter().map(fmt_defect).collect::<Vec<_>>(),
+                        fmt_header(&h),
+                        f.as_ref().map(fmt_header).unwrap_or("error".into()),
+                        got
+                    ));
+                }
+            }
+        }
+    }
+    let out = format!("{out} L={}", l.map(|x| x.to_string()).unwrap_or("-".into()));
+    Some((out, oracle))
+}
+
+fn run_r(t: &[&str]) -> Option<(String, Vec<String>)> {
+    let fl = if *t.get(1)? == "n" { None } else { Some(p_u64(t[1])?) };
+    let mut ws = Vec::new();
+    for s in &t[2..] {
+        ws.push(p_u32(s)?);
+    }
+    let bytes = words_to_bytes(&ws);
+    let mut oracle = vec![];
+    let (out, _) = three(&bytes, fl, &mut oracle);
+    Some((out, oracle))
+}
+
+pub fn run(line: &str) -> Option<(String, Vec<String>)> {
+    let t = toks(line);
+    match *t.first()? {
+        "D" => run_d(&t),
+        "R" => run_r(&t),
+        _ => None,
+    }
+}
+
+// ---------------------------------------------------------------------------------------------
+
+fn defects_for(h: &Header, rng: &mut Rng) -> Vec<Vec<Defect>> {
+    let m = h.mipmap_count().get();
+    let full = full_chain(h);
+    let mut v: Vec<Vec<Defect>> = vec![
+        vec![],
+        vec![Defect::Header24],
+        vec![Defect::PfSize(0)],
+        vec![Defect::PfSize(24)],
+        vec![Defect::Mips(m + 1)],
+        vec![Defect::Mips(m - 1)],
+        vec![Defect::Mips(0)],
+        vec![Defect::Mips(1)],
+        vec![Defect::Mips(full)],
+        vec![Defect::Mips(full + 1)],
+        vec![Defect::Mips(m + 2)],
+        vec![Defect::Mips(rng.range(1, 40) as u32)],
+        vec![Defect::DropMipFlags],
+    ];
+    match h {
+        Header::Dx10(_) => {
+            for a in [0u32, 6, 1, 2, 7] {
+                v.push(vec![Defect::Array(a)]);
+            }
+            for a in [5u32, 6, 7, 13, 0xFFFF_FFFD] {
+                v.push(vec![Defect::Misc2(a)]);
+            }
+            v.push(vec![Defect::Array(0), Defect::Mips(m + 1)]);
+            v.push(vec![Defect::Array(0), Defect::Mips(m - 1)]);
+            v.push(vec![Defect::Mips(1), Defect::Array(0)]);
+            v.push(vec![Defect::Array(0), Defect::Mips(full)]);
+            v.push(vec![Defect::Array(0), Defect::DropMipFlags]);
+            v.push(vec![Defect::Array(6), Defect::Mips(m + 1)]);
+            v.push(vec![Defect::PfFlags(0)]);
+        }
+        Header::Dx9(_) => {
+            for f in [0u32, 0x40, 0x41, 0x1, 0x80000, 0xFFFF_FFFB] {
+                v.push(vec![Defect::PfFlags(f)]);
+            }
+            v.push(vec![Defect::PfFlags(0), Defect::Mips(m + 1)]);
+        }
+    }
+    v.push(vec![Defect::Header24, Defect::PfSize(0), Defect::Mips(m + 1)]);
+    v
+}
+
+fn d_line(h: &Header, fl: &str, ds: &[Defect]) -> String {
+    let d: Vec<String> = ds.iter().map(fmt_defect).collect();
+    format!("D {} {} {}", fmt_header(h), fl, d.join(" ")).trim_end().to_string()
+}
+
+pub fn gen(seed: u64, thorough: bool) -> Vec<String> {
+    let mut rng = Rng::new(seed ^ 0xC18);
+    let dxgi = valid_dxgi_codes();
+    let bset = boundary_u32();
+    let mut out = vec![];
+    let mut headers: Vec<Header> = vec![];
+
+    // every format x kind through the public constructors, a few geometries
+    let geo: &[(u32, u32, u32)] = &[(1, 1, 1), (4, 4, 4), (5, 3, 2), (16, 16, 16), (20, 12, 3), (64, 1, 1), (33, 17, 5), (256, 256, 2)];
+    for (i, (_, f)) in FORMATS.iter().enumerate() {
+        for k in 0..3 {
+            let (w, h, d) = geo[(i + k) % geo.len()];
+            let base = match k {
+                0 => Header::new_image(w, h, *f),
+                1 => Header::new_volume(w, h, d, *f),
+                _ => Header::new_cube_map(w, h, *f),
+            };
+            let full = full_chain(&base);
+            for m in [1, 2, full, full.saturating_sub(1).max(1), full + 1] {
+                headers.push(base.clone().with_mipmap_count(m));
+            }
+        }
+    }
+    // arrays, cube arrays, partial cubes, 1D
+    for &code in &[28u32, 71, 98, 103, 66] {
+        for (dim, misc, arr) in [(3u32, 0u32, 2u32), (3, 0, 6), (3, 4, 2), (3, 4, 6), (2, 0, 1), (2, 0, 3), (3, 4, 1)] {
+            for m in [1u32, 3, 5] {
+                if let Some(h) = parse_header(&format!("10:16:12:-:{m}:{code}:{dim}:{misc}:{arr}:0")) {
+                    headers.push(h);
+                }
+            }
+        }
+    }
+    for faces in [1u32, 3, 21, 42, 62, 63] {
+        for m in [1u32, 4] {
+            if let Some(h) = parse_header(&format!("9:8:8:-:{m}:{}:F:827611204", 0x200 | faces << 10)) {
+                headers.push(h);
+            }
+        }
+    }
+    let n = if thorough { 120_000 } else { 1_500 };
+    for _ in 0..n {
+        headers.push(random_header(&mut rng, &dxgi));
+    }
+
+    let modes = ["e", "e", "n", "+", "-"];
+    for (i, h) in headers.iter().enumerate() {
+        for (j, ds) in defects_for(h, &mut rng).iter().enumerate() {
+            out.push(d_line(h, "e", ds));
+            let m = modes[(i + j) % modes.len()];
+            if m != "e" {
+                out.push(d_line(h, m, ds));
+            }
+            if (i + j) % 11 == 0 {
+                let arb = match rng.below(3) {
+                    0 => rng.below(5000),
+                    1 => rng.next() >> rng.below(64),
+                    _ => 4 + h.byte_len() as u64 + data_len(h).unwrap_or(0) * rng.range(1, 6),
+                };
+                out.push(d_line(h, &arb.to_string(), ds));
+            }
+        }
+    }
+
+    // arbitrary word images with coincidence-prone file lengths
+    let n = if thorough { 800_000 } else { 12_000 };
+    for _ in 0..n {
+        let h = random_header(&mut rng, &dxgi);
+        let mut ws = header_words(&h);
+        let tl0 = true_len(&ws);
+        for _ in 0..rng.below(3) {
+            let idx = rng.below(ws.len() as u64) as usize;
+            ws[idx] = match rng.below(4) {
+                0 => any_u32(&mut rng, &bset),
+                1 => ws[idx] ^ (1 << rng.below(32)),
+                2 => ws[idx].wrapping_add(1),
+                _ => ws[idx].wrapping_sub(1),
+            };
+        }
+        // lengths that match some other plausible header: other mip counts / array sizes
+        let fl = match rng.below(8) {
+            0 => None,
+            1 | 2 => tl0,
+            3 => true_len(&ws),
+            4 => {
+                let mut w2 = ws.clone();
+                w2[W_MIPS] = rng.range(1, 12) as u32;
+                true_len(&w2)
+            }
+            5 => {
+                let mut w2 = ws.clone();
+                if w2.len() > W_ARRAY {
+                    w2[W_ARRAY] = *rng.pick(&[1, 2, 6]);
+                }
+                w2[W_MIPS] = rng.range(1, 12) as u32;
+                true_len(&w2)
+            }
+            6 => tl0.map(|x| x + rng.range(0, 2) - 1),
+            _ => Some(rng.next() >> rng.below(64)),
+        };
+        let w: Vec<String> = ws.iter().map(|x| x.to_string()).collect();
+        out.push(format!("R {} {}", fl.map(|x| x.to_string()).unwrap_or("n".into()), w.join(" ")));
+    }
+    out
 }
